@@ -204,11 +204,71 @@ def shard(binpath, seed, sh, ncases):
     return res
 
 
+def twins(binpath, res, seed):
+    """pairs of unequal contents that any non-injective step between the value and the signed bytes would merge
+    (a quote, a backslash, a separator inside a string against the same characters as structure): signatures over one
+    twin count nothing on the other; and a signature made directly over the reference canonical bytes of a content with
+    such characters is a valid signature over the block's canonical content"""
+    import jsongen
+    rng = common.rng_for(seed, PROP, 555)
+    W = scen.World(binpath)
+
+    def link(**kw):
+        d = scen.mk_link("twin", {"a": scen.digest(1)}, {"b": scen.digest(2)}, ["c"], {"stdout": "o", "return-value": 0}, {"E": "v"})
+        for k, v in kw.items():
+            if k in ("stdout", "stderr"):
+                d["byproducts"][k] = v
+            else:
+                d[k] = v
+        return d
+    pairs = [(link(command=['a","b']), link(command=["a", "b"])),
+             (link(stdout='o","stderr":"e'), link(stdout="o", stderr="e")),
+             (link(command=['a\\","b']), link(command=["a\\", "b"])),
+             (link(environment={"K": 'v","L":"w'}), link(environment={"K": "v", "L": "w"})),
+             (link(command=["a\\nb"]), link(command=["a\nb"])),
+             (link(name='twin","x":"y'), link(name="twin")),
+             (link(command=['say "done"']), link(command=["say done"]))]
+    keys = ["ed2", "edp1", "ec-b", "rsa-2048-a"]
+    reqs = [(a, [k], "new") for a, b in pairs for k in keys]
+    wires = scen.sign_all(binpath, reqs, nproc=1)
+    raw = common.run_batch(binpath, [{"op": "rawsig", "key": k, "msg": {"hex": jsongen.olpc_canon(a).encode().hex()}} for a, b in pairs for k in keys])
+    cases = []
+    i = 0
+    for a, b in pairs:
+        for k in keys:
+            sa = wires[i]["signatures"][0]
+            ro = raw[i]
+            i += 1
+            auth = [W.pub(k)]
+            cases.append({"op": "block", "text": json.dumps({"signatures": [sa], "signed": a}), "threshold": 1, "auth": auth,
+                          "meta": {"kind": "twin_control", "expect": "accept", "key": k}})
+            cases.append({"op": "block", "text": json.dumps({"signatures": [sa], "signed": b}), "threshold": 1, "auth": auth,
+                          "meta": {"kind": "twin_signature_on_other_twin", "expect": "reject", "key": k}})
+            if "ok" in ro:
+                cases.append({"op": "block", "text": json.dumps({"signatures": [ro["ok"]], "signed": a}), "threshold": 1, "auth": auth,
+                              "meta": {"kind": "signature_over_reference_bytes", "expect": "accept", "key": k}})
+    obs = common.run_batch(binpath, cases)
+    for c, o in zip(cases, obs):
+        m = c["meta"]
+        if any(x in o for x in ("crash", "watchdog", "missing")) or o.get("parse") != "ok" or "auth_err" in o:
+            res.inconclusive.append(f"twin case failed in the executor: {str(o)[:200]}")
+            continue
+        ok = o.get("verify") == "ok"
+        res.note([c["text"], m["kind"], m["key"]], True, cls=[f"kind:{m['kind']}", "accepted" if ok else "rejected"])
+        if ok and m["expect"] == "reject":
+            res.violate("accept-signature-over-other-content:twin", f"a signature by {m['key']} over one content was accepted on an unequal content "
+                        f"(the two differ only in where a quote / backslash / separator stands)", c, o, "err")
+        if not ok and m["expect"] == "accept":
+            res.violate(f"reject-although-threshold-met:{m['kind']}", f"one authorised key ({m['key']}) has a valid signature over the block's canonical "
+                        f"content, threshold 1, yet verification failed: {o.get('verify')}", c, o, "ok")
+
+
 def main(ctx):
     res = common.Result()
     n = 300 if not ctx.thorough else 6000
     for p in common.pmap(shard, [(ctx.bin, ctx.seed, s, n) for s in range(common.NPROC)]):
         res.merge(p)
+    twins(ctx.bin, res, ctx.seed)
     return common.finish(
         PROP, ctx.tier, ctx.seed, res, t0=ctx.t0,
         rule="signed link blocks with per-key signature entries drawn from {valid, bit-flipped, duplicated entry, "
@@ -220,6 +280,7 @@ def main(ctx):
                      "ring's primitives are correct"],
         required=["accepted", "rejected", "t=0", "t>n", "kind:dup", "kind:resign", "kind:mislabeled",
                   "kind:flipped", "kind:unauthorised", "kind:other_content", "kind:unknown_scheme_key", "kind:auth_key_declares_second_id",
-                  "kind:auth_key_declares_other_id", "kind:replayed_after_genuine_verification", "kind:history_genuine_other_content", "once", "repeated-labels",
+                  "kind:auth_key_declares_other_id", "kind:replayed_after_genuine_verification", "kind:history_genuine_other_content", "kind:twin_control", "kind:twin_signature_on_other_twin",
+                  "kind:signature_over_reference_bytes", "once", "repeated-labels",
                   "accepted_with_t>=2"],
         min_evals=1000)
